@@ -82,4 +82,10 @@ theorem C24_plan_eq_conversion_full_false : ¬ C24_plan_eq_conversion_full := by
   revert this
   decide
 
+/-! current values of the generated tables (default mode "loki", `-` ↦ `_`) at work -/
+private def infS (_ : FileNode) : FInfo :=
+  ⟨"src/a", "g", ".F90", "src/a/g.F90", true, "src/a/g.F90", true, false, none, some "scc-hoist"⟩
+example : getFilePath ⟨none, some "build"⟩ (infS fA) = "build/g.scc_hoist.F90" := by decide
+example : getFilePath ⟨some ".f90", none⟩ { infS fA with mode := none } = "src/a/g.loki.f90" := by decide
+
 end LokiModel.C24
